@@ -578,9 +578,9 @@ func (in *Interp) sbRead(sb *SymBytes, idx *smt.Term) *smt.Term {
 		if d, ok := in.Ghost["tree:"+s.S].(*boundDoc); ok && d.Root != nil {
 			// the first byte of a well-formed document: '<' or white space before the root (byte order marks and
 			// other prologues are outside the scenarios); the concretiser honours the choice
-			in.X.noteAssumption("a scenario document starts with '<' or with one white-space character before its root (no byte order mark)")
+			in.X.noteAssumption("a scenario document starts with '<', with one white-space character before its root, or with a UTF-8 byte order mark (first byte 0xEF)")
 			var alts []*smt.Term
-			for _, c := range []int64{'<', ' ', '\n', '\t', '\r'} {
+			for _, c := range []int64{'<', ' ', '\n', '\t', '\r', 0xEF} {
 				alts = append(alts, smt.Eq(code, smt.IntLit(c)))
 			}
 			in.assumeOnce(smt.Or(alts...))
